@@ -27,7 +27,10 @@ PROP = dict(
               "f in {1/4,1/3,1/6,1/8,1/10,3/10} cycles/sample (periods 3..10: any strided level estimate aliases) x phase {0, pi/2, 0.3} x "
               "amplitude {1, 1e-3} x snr {10, 20.5} dB, one seed each, 6-standard-error band (< 2 %); rng replay: seeds 0..99 x all 819 programs of <= 3 calls over {rand(), rand(3), rand({a,b},2), randn(), "
               "randn(3), randi(5), randi({-2,2},3), awgn(real), awgn(complex)}; randi ranges {[1,1],[-3,-3],[-5,5],[0,1],[-2^30,2^30]} and "
-              "randi(imax) imax {1,2,6,1000}, 10^4 draws x 20 seeds; rand({a,b},n) with 6 fractional ranges x 20 seeds inside [a,b]; thd/sinad/snr: N {2048,4096,5000,8192} x 3 fundamental positions x "
+              "randi(imax) imax {1,2,6,1000}, 10^4 draws x 20 seeds; rand({a,b},n) with 6 fractional ranges x 20 seeds inside [a,b]; randi.alternate: 600 SCALAR "
+              "draws interleaving the ranges of a group (9 groups: shared upper bound -3 / -1 / 0 / 7 with different lower bounds, shared lower "
+              "bound -10 / 0 / 5 with different upper bounds, single-value ranges for negative k incl. -2147483647, mixed) x 20 seeds, every "
+              "draw inside its own range and the sequence replays after rng(seed); thd/sinad/snr: N {2048,4096,5000,8192} x 3 fundamental positions x "
               "offsets {0,0.1,0.25,0.5,0.73} bin x 1..5 harmonics x <= 8 level patterns from {-10,-20,-30,-40} dBc x 3 phase letters x "
               "scales {1,1e-4,1e4,2^-13,2^13} (6480 configurations); odd lengths N {2049,4095,5001,8191 (prime),10001} on a reduced grid "
               "(3 positions x offsets {0,0.25,0.73} x H {1,3,5} x 2 level patterns x 2 phase letters = 108 configurations each), same oracles; "
@@ -36,8 +39,8 @@ PROP = dict(
               "harmpow[k]-harmpow[0] within 0.1 dB of its true dBc; BIG records N {65536, 100000, 131072} on a mini grid (3 positions x offsets "
               "{0,0.25} x H {1,5} x 2 level patterns = 24 configurations each, 5 scales)",
         thorough="awgn.tones also at N = 10^6 and 2^20; awgn (7 real / 9 complex letters; the fractional snr values at signal power 1 only) seeds 0..999 at N=10^4, 0..49 at N=10^5, 0..4 at N=10^6, 0..9 at N=200000, 0..19 at N in "
-                 "{9973 (prime), 10001, 65536, 65537, 131072}; rng replay and seed_matters seeds 0..9999 (8.19M call programs); randi and rand({a,b}) 200 "
-                 "seeds per range; measurement: for N {2048,4096,5000} every combination of the first three harmonic levels "
+                 "{9973 (prime), 10001, 65536, 65537, 131072}; rng replay and seed_matters seeds 0..9999 (8.19M call programs); randi, randi.alternate and rand({a,b}) 200 "
+                 "seeds per range / group; measurement: for N {2048,4096,5000} every combination of the first three harmonic levels "
                  "(4+16+64+64+64 patterns, further levels derived), plus the 8-pattern set (1620 configurations each) at N in {3000, 6000, "
                  "8192, 10000, 16384} and the odd lengths {2049,4095,5001,8191,10001}, and the reduced grid (108 configurations) at N in "
                  "{32767, 32768, 65536, 65537, 100000, 100003, 131071 (prime), 2^17}; measure.lowfund: N {2^14,2^15,2^17,40000} x bins {110,130,150,170,200} "
